@@ -803,10 +803,14 @@ class ISLaSolver:
         inp = self.parse(inp, skip_check=True) if isinstance(inp, str) else inp
 
         try:
-            if self.check(inp) or not is_successful(self.top_constant):
+            if self.check(inp):
                 return Some(inp)
         except UnknownResultError:
             pass
+
+        if not is_successful(self.top_constant):
+            # The constraint does not mention the input: no change can satisfy it.
+            return Nothing
 
         formula = self.top_constant.map(
             lambda c: self.formula.substitute_expressions({c: inp})
